@@ -340,7 +340,7 @@ def standard_compare(res, cases, impl, model, check_sodium=True, check_spec=True
         if check_spec and sp not in ("n/a", "bad-op") and ib != sp and not bad:
             res.violations.append({"kind": "impl!=spec", "line": c.line, "answers": answers, "why": "implementation differs from the Lean specification"})
             bad = True
-        if check_sodium and s not in ("n/a",) and ib != s and not bad:
+        if check_sodium and not c.meta.get("no_sodium") and s not in ("n/a",) and ib != s and not bad:
             res.violations.append({"kind": "impl!=sodium", "line": c.line, "answers": answers, "why": "implementation differs from libsodium"})
             bad = True
         if c.expect is not None and not bad:
